@@ -254,17 +254,23 @@ def run_case(spec, idx, ctx):
         # (1) save-time skipping, plain load
         exp1, rem1 = fresh(), []
         _prune(exp1, x, set(S), T, dq, rem1)
-        got1 = load(p_skip)
+        got1 = _load(ctx, load, p_skip, (), dict(fields, when="save"))
+        if got1 is None:
+            return _finish(ctx, spec, x, exp1, rem1, S, Tn, S2, store)
         _judge(ctx, got1, exp1, "save_time_skip", set(S), dict(fields, when="save"), "load(save(x, skip=S+T)) vs pruned no-skip round trip")
         # (2) load-time skipping by name
         exp2, rem2 = fresh(), []
         _prune(exp2, x, set(S), (), dq, rem2)
-        got2 = load(p_plain, skip=S if not (spec.get("scalar_skip") and S) else S[0])
+        got2 = _load(ctx, load, p_plain, S if not (spec.get("scalar_skip") and S) else S[0], dict(fields, when="load"))
+        if got2 is None:
+            return _finish(ctx, spec, x, exp1, rem1, S, Tn, S2, store)
         _judge(ctx, got2, exp2, "load_time_skip", set(S), dict(fields, when="load"), "load(save(x), skip=S) vs pruned no-skip round trip")
         # (3) both (S2 == S unless the spec says otherwise)
         exp3, rem3 = fresh(), []
         _prune(exp3, x, set(S) | set(S2), T, dq, rem3)
-        got3 = load(p_skip, skip=S2)
+        got3 = _load(ctx, load, p_skip, S2, dict(fields, when="both"))
+        if got3 is None:
+            return _finish(ctx, spec, x, exp1, rem1, S, Tn, S2, store)
         _judge(ctx, got3, exp3, "save_and_load_skip", set(S) | set(S2), dict(fields, when="both"), "load(save(x, skip=S+T), skip=S2) vs pruned no-skip round trip")
         # direct predicate, independent of deq: no attribute named in S anywhere along attribute nesting
         for tag, got, names in (("save", got1, set(S)), ("load", got2, set(S)), ("both", got3, set(S) | set(S2))):
@@ -272,6 +278,22 @@ def run_case(spec, idx, ctx):
             ctx.check(not bad, "skipped_name_reachable", lambda: "after %s-time skip=%s: %s still present" % (tag, sorted(names), bad[:4]), when=tag, store=store, object_depth=(bad[0][0] if bad else 0))
     finally:
         shutil.rmtree(base, ignore_errors=True)
+    _finish(ctx, spec, x, exp1, rem1, S, Tn, S2, store)
+
+
+def _load(ctx, load, path, skip, fields):
+    """load() of a file the skipping save() just wrote must succeed."""
+    try:
+        r = load(path, skip=skip)
+    except Exception as e:  # noqa: BLE001
+        ctx.check(False, "load_after_skip_raises", "load(%s, skip=%r) raised %s: %s" % (os.path.basename(path), skip, type(e).__name__, str(e)[:200]), exc_type=type(e).__name__, **fields)
+        return None
+    ctx.check(True, "load_after_skip_raises")
+    return r
+
+
+def _finish(ctx, spec, x, exp1, rem1, S, Tn, S2, store):
+    dq = ctx.state["deq"]
     survivors = _count_attrs(exp1, dq)
     deep_hits = [r for r in rem1 if r[0] >= 2]
     sig = hashlib.sha1(repr((spec["family"], sorted(S), sorted(Tn), sorted(S2))).encode()).hexdigest()[:16]
